@@ -44,9 +44,19 @@ class Ctx:
         self.keep = []
         self.efflog = []       # for the C06 oracle only (not compared with the model)
         self.live = set()      # schedulers past their enter and not yet exited
+        self.skew = []         # (kind, id, own view of tyme, Doist's tyme) where they differ
 
-    def ev(self, kind, i):
+    def ev(self, kind, i, own=None):
         self.log.append((kind, i, self.doist.tyme))
+        # the doer's own view of the clock (through the tymth injected down the tree) must be the tyme of
+        # the Doist that runs it
+        if own is not None:
+            try:
+                t = own()
+            except Exception as ex:
+                t = repr(ex)
+            if t != self.doist.tyme and len(self.skew) < 20:
+                self.skew.append((kind, i, t, self.doist.tyme))
 
     def effects(self, caller, es):
         for e in es:
@@ -89,7 +99,7 @@ def _build(ctx, i):
                     ctx.live.add(i)
                 return r
             def recur(self, tyme, deeds=None):
-                ctx.ev("Recur", i)
+                ctx.ev("Recur", i, own=lambda: self.tyme)
                 return super().recur(tyme, deeds=deeds)
             def clean(self):
                 ctx.ev("Clean", i)
@@ -124,7 +134,7 @@ def _build(ctx, i):
                     raise KeyboardInterrupt()
                 # a plain-recur Doer cannot return at enter: generators never give it "r" at step 0
             def recur(self, tyme):
-                ctx.ev("Recur", i)
+                ctx.ev("Recur", i, own=lambda: self.tyme)
                 stp = ctx.step(script, self.pc)
                 self.pc += 1
                 ctx.effects(i, stp["es"])
@@ -155,7 +165,7 @@ def _build(ctx, i):
                 while True:
                     stp = ctx.step(script, pc)
                     if pc > 0:
-                        ctx.ev("Recur", i)
+                        ctx.ev("Recur", i, own=lambda: self.tyme)
                     pc += 1
                     ctx.effects(i, stp["es"])
                     o = stp["out"]
@@ -185,7 +195,7 @@ def _build(ctx, i):
                 while True:
                     stp = ctx.step(script, pc)
                     if pc > 0:
-                        ctx.ev("Recur", i)
+                        ctx.ev("Recur", i, own=tymth)
                     pc += 1
                     ctx.effects(i, stp["es"])
                     o = stp["out"]
@@ -313,6 +323,7 @@ def run_prog(prog):
         "scheds": scheds,
         "raised": raised,
         "efflog": ctx.efflog,
+        "skew": [list(x) for x in ctx.skew],
     }
 
 
@@ -771,6 +782,9 @@ def broad_oracle(case, obs):
     cycle (strictly increasing tymes inside one life of one run)."""
     if obs["raised"].startswith("escape"):
         return f"unexpected exception escaped the run: {obs['raised']}"
+    why = clock_oracle(obs)
+    if why:
+        return why
     tr = obs["trace"]
     if not tr or tr[-1][0] not in ("DoReturn", "DoRaise"):
         return "lifecycle events after the run ended (a still-alive doer was not exited before it returned)"
@@ -814,4 +828,12 @@ def broad_oracle(case, obs):
         why = close_cycle()
         if why:
             return why
+    return None
+
+
+def clock_oracle(obs):
+    """Every doer reads, through its injected tymth, the tyme of the Doist that is running it."""
+    if obs.get("skew"):
+        k, i, own, t = obs["skew"][0]
+        return f"doer {i} read tyme {own} through its tymth at a {k} while the Doist running it is at tyme {t}"
     return None
